@@ -214,8 +214,16 @@ structure CB where
 
 def anyCore : TraitCore := { dvt := Generated.CONSTANT_DEFAULT_VALUE, dv := some noneId }
 
-/-- A member code → (member, own `_name_default`), allocating templates. -/
-def parseMember (code : String) (c : Ctx) : Option (Option Member × Ctx) :=
+/-- A member code → (member, own `_name_default`), allocating templates.  `k<j>` names the reusable trait
+definition number `j` of the case (one CTrait object bound to several names / classes / added to several
+instances): definitions are values in the model, so it stands for its own code (`c<v>` or `fa<k>`). -/
+def parseMember (shared : List (Nat × String)) (code0 : String) (c : Ctx) : Option (Option Member × Ctx) :=
+  let code : String :=
+    if code0.startsWith "k" then
+      match ((code0.drop 1).toString.toNat?).bind (fun j => (shared.find? (·.1 == j)).map (·.2)) with
+      | some c => c
+      | none => "?"
+    else code0
   let two := (code.take 2).toString
   let one := (code.take 1).toString
   let rest1 := (code.drop 1).toString
@@ -248,7 +256,7 @@ def parseMember (code : String) (c : Ctx) : Option (Option Member × Ctx) :=
   else none
 
 /-- `name=member[~k][/hK]` -/
-def parseDecl (base : Option ClassRec) (s : String) (c : Ctx) : Option (Decl × Ctx) :=
+def parseDecl (shared : List (Nat × String)) (base : Option ClassRec) (s : String) (c : Ctx) : Option (Decl × Ctx) :=
   match s.splitOn "=" with
   | [n, rhs] =>
     let (rhs1, hs) := match rhs.splitOn "/h" with
@@ -257,7 +265,7 @@ def parseDecl (base : Option ClassRec) (s : String) (c : Ctx) : Option (Decl × 
     let (code, dflt) := match rhs1.splitOn "~" with
       | [a, b] => (a, b.toNat?)
       | _ => (rhs1, none)
-    match nat? n, parseMember code c with
+    match nat? n, parseMember shared code c with
     | some name, some (m, c') =>
       let inherited : List Nat := match base.bind (·.get name) with
         | some ct => ((ct.ctrait.notifiers.getD []).filter (·.kind == .static)).map (·.h)
@@ -269,31 +277,31 @@ def parseDecl (base : Option ClassRec) (s : String) (c : Ctx) : Option (Decl × 
     | _, _ => none
   | _ => none
 
-def parseDecls (base : Option ClassRec) : List String → Ctx → Option (List Decl × Ctx)
+def parseDecls (shared : List (Nat × String)) (base : Option ClassRec) : List String → Ctx → Option (List Decl × Ctx)
   | [], c => some ([], c)
   | s :: ss, c =>
-    match parseDecl base s c with
+    match parseDecl shared base s c with
     | none => none
     | some (d, c1) =>
-      match parseDecls base ss c1 with
+      match parseDecls shared base ss c1 with
       | none => none
       | some (ds, c2) => some (d :: ds, c2)
 
-def buildClasses (E : Env) : List String → CB → Option CB
+def buildClasses (E : Env) (shared : List (Nat × String)) : List String → CB → Option CB
   | [], b => some b
   | s :: ss, b =>
     match s.splitOn ":" with
     | [bs, ds] =>
       let base : Option ClassRec := (nat? bs).bind (b.classes[·]?)
-      match parseDecls base (fields ds ",") b.ctx with
+      match parseDecls shared base (fields ds ",") b.ctx with
       | none => none
       | some (decls, c1) =>
         match buildClass E base decls c1 with
-        | (.ok k, c2) => buildClasses E ss { classes := b.classes ++ [k], ctx := c2 }
+        | (.ok k, c2) => buildClasses E shared ss { classes := b.classes ++ [k], ctx := c2 }
         | (.error _, _) => none
     | _ => none
 
-def parseWOp (s : String) : Option WOp :=
+def parseWOp (shared : List (Nat × String)) (s : String) : Option WOp :=
   match words s with
   | ["new", k] => (nat? k).map .new
   | ["get", i, n] => do pure (.get (← nat? i) (← nat? n))
@@ -305,7 +313,7 @@ def parseWOp (s : String) : Option WOp :=
   | ["ra", i, h] => do pure (.regAny (← nat? i) (← nat? h))
   | ["at", i, n, code] =>
     -- only members that allocate nothing: c<v>, fa<k>
-    match parseMember code {} with
+    match parseMember shared code {} with
     | some (some (.trait t), _) => do pure (.addTrait (← nat? i) (← nat? n) t)
     | _ => none
   | _ => none
@@ -395,10 +403,11 @@ def handleC10 (pf ff cf hf opsf : String) : String :=
       reraiseLegacy := false
       reraiseObserve := false
       warnError := look P "W" == "1" }
+  let shared := factoryTable (look (kvs ff) "K")
   let silent := (factoryTable ftab).filterMap fun e =>
     if (e.2.take 1).toString != (e.2.take 1).toString.toLower then some e.1 else none
-  match buildClasses E (fields ((cf.drop 2).toString) ";") { ctx := { alloc := N } },
-        (fields opsf ";").mapM parseWOp with
+  match buildClasses E shared (fields ((cf.drop 2).toString) ";") { ctx := { alloc := N } },
+        (fields opsf ";").mapM (parseWOp shared) with
   | some b, some ops =>
     let w0 : World := { classes := b.classes, ctx := b.ctx }
     renumber (" ; ".intercalate (showWTrace N silent w0 (World.runTrace E w0 ops)))
